@@ -8,6 +8,7 @@ import (
 	"bytes"
 	"encoding/json"
 	"fmt"
+	"os"
 
 	"github.com/uhppoted/uhppote-core/encoding/bcd"
 	"verif/spec"
@@ -255,7 +256,11 @@ func main() {
 	// (5) long inputs: lengths around powers of two and ten up to two million digits (formatting
 	// helpers, width limits, 16- and 20-bit length arithmetic), all digits, and with one non-digit
 	// at the first, middle and last position
-	longLengths := []int{255, 256, 257, 999, 1000, 1001, 4095, 4096, 4097, 65535, 65536, 65537, 99999, 100001, 999999, 1000000, 1000001, 1048575, 1048577, 2097153}
+	longLengths := []int{255, 256, 257, 999, 1000, 1001, 4095, 4096, 4097, 65535, 65536, 65537, 99999, 100001, 999999, 1000000, 1000001, 1048575, 1048577, 2097153,
+		9999999, 10000001, 16777215, 16777217, 33554433, 67108865}
+	if r.Thorough() && os.Getenv("VERIF_IS_386") == "" { // (the 32-bit build stops at 2^26+1 digits: address space)
+		longLengths = append(longLengths, 99999999, 100000001, 134217729, 268435457)
+	}
 	vk.Parallel(len(longLengths), func(k int) {
 		n := longLengths[k]
 		b := make([]byte, n)
@@ -345,7 +350,7 @@ func main() {
 	}
 
 	r.Distinct(nontrivial)
-	r.Rule(fmt.Sprintf("every Unicode code point alone and embedded in a digit string; many bad symbols at once: 1..1100 and 10 counts around 2^12 / 2^16 / 2^17 / 2^20 bad bytes (5 values) or characters (3), alone and alternating with valid ones; long inputs: digit strings / BCD slices of 20 lengths from 255 to 2097153 digits, all valid and with one bad symbol at the first, middle and last position; histories (consecutive calls): every ordered pair of byte values at every position of slices of length 1..9 and 16 (two base patterns) for Decode, every ordered pair of symbols at every position of digit strings of length 1..17 for Encode - counted as evaluations only; every string of length 0..%d over {0..9,'a','é'}; every byte slice of length 0..2 and (thorough: all; quick: one byte fixed to a boundary value) length 3; every single (position,symbol) substitution into digit strings of length 1..32 and BCD slices of length 1..16; distinct = distinct inputs by construction", maxLen))
+	r.Rule(fmt.Sprintf("every Unicode code point alone and embedded in a digit string; many bad symbols at once: 1..1100 and 10 counts around 2^12 / 2^16 / 2^17 / 2^20 bad bytes (5 values) or characters (3), alone and alternating with valid ones; long inputs: digit strings / BCD slices of 26 (thorough 30) lengths from 255 to 67 108 865 (thorough 268 435 457) digits, all valid and with one bad symbol at the first, middle and last position; histories (consecutive calls): every ordered pair of byte values at every position of slices of length 1..9 and 16 (two base patterns) for Decode, every ordered pair of symbols at every position of digit strings of length 1..17 for Encode - counted as evaluations only; every string of length 0..%d over {0..9,'a','é'}; every byte slice of length 0..2 and (thorough: all; quick: one byte fixed to a boundary value) length 3; every single (position,symbol) substitution into digit strings of length 1..32 and BCD slices of length 1..16; distinct = distinct inputs by construction", maxLen))
 	r.Sample(map[string]any{"encode": "12a", "reference": "error"})
 	r.Sample(map[string]any{"encode": "123", "reference": "0123"})
 	r.Sample(map[string]any{"decode": "129a", "reference": "error"})
